@@ -344,9 +344,9 @@ def r4(ctx, F, bs):
             # the recorded side must be the side copied from (guarded by the same contains_key edge)
             sides = fp_side(val_o)
             src_side = None
-            for cb, ct, src, dst in copies:
-                if 'DeleteVsModify' in bs.arm_of(cb) and cfg.dominates(cb, ib):
-                    src_side = src[1]
+            cands = {src[1] for cb, ct, src, dst in copies if 'DeleteVsModify' in bs.arm_of(cb) and (cfg.dominates(cb, ib) or cfg.can_reach(cb, ib))}
+            if len(cands) == 1:
+                src_side = list(cands)[0]
             ok = at_rel and len(sides) == 1 and list(sides)[0] == src_side
             seen.add('DeleteVsModify:' + str(src_side))
             ctx.check(ok, 'C06.R4', 'apply:DeleteVsModify:record-%s' % src_side, 'common[rel] = %s[rel] (the restored side)' % src_side,
@@ -359,8 +359,9 @@ def r4(ctx, F, bs):
                 with fl.restricted(excl):
                     over = [c for c in bs.copy_sites() if 'BothChanged' in bs.arm_of(c[0]) and c[3][0] == 'live']
                     vs = bs.fp_side(fl.origins(it['args'][2]))
-                X = over[0][2][1] if len(over) == 1 else None
-                Y = over[0][3][1] if len(over) == 1 else None
+                one = len({(c[2][:2], c[3][:2]) for c in over}) == 1
+                X = over[0][2][1] if one else None
+                Y = over[0][3][1] if one else None
                 got.append((label, sorted(vs), X, Y))
                 if vs != ({X} if at_rel else {Y}):
                     sides_ok = False
@@ -499,6 +500,8 @@ def r9(ctx, F, bs):
     fl = bs.afl
     from rules.C02 import REMOVERS
     for rb, rt in fl.calls(lambda c: c in REMOVERS):
+        if is_staging_name(F, fl, rt['args'][0]):
+            continue        # cleanup of a reserved staging name: nothing is dropped from the record for it
         arms = bs.arm_of(rb)
         arm = next((a for a in arms if a in ('DeleteA', 'DeleteB')), '+'.join(arms))
         discarded = fl.result_discarded(rb)
